@@ -9,11 +9,11 @@ RULE = (
     "four relation families over seeded configuration cells: (ffns) total = light + sum of massive heavy flavours in "
     "FFNS/FFN0; (zm) total == light bit for bit in ZM-VFNS; (fonll) FONLLParts full = massless + massive (three runs); "
     "(pos) sum over NCPositivityCharge in d,u,s,c,b,t = unrestricted NC/EM run, None == 'all' bit for bit. Every order "
-    "key (scale-variation keys included) is compared entrywise with rtol 1e-12 on sum|parts|. Distinct = (family, kind, "
+    "key (scale-variation keys included) is compared entrywise with rtol 1e-10 on sum|parts|. Distinct = (family, kind, "
     "process, scheme, NfFF, PTO, target class); non-trivial = the sum had at least two non-zero parts (or a non-zero tensor for zm)."
 )
 ASSUMPTIONS = ["for a flavour the scheme treats as light, <flavour> is part of light and is not added again (property: 'wherever the scheme defines a partition')"]
-RTOL = 1e-12
+RTOL = 1e-10  # re-association noise is relative to the sum of |kernel terms|, which can exceed the result by 1e2 (thorough: margin 0.7 at 1e-12)
 HEAVY = {4: "charm", 5: "bottom", 6: "top"}
 
 
